@@ -18,6 +18,7 @@ EXPLANATION = (
     "Also decided: _get_attribute returns only the looked-up member and no gate can fall off its end; the class-expose loop tests the member's own name for privacy; _reset_exposed_members addresses the cache entry _get_exposed_members wrote; every loadsCall hands object id and member name on exactly as decoded. "
     "Also decided (round 7): The property gates run the examined descriptor's own accessor (no getattr/setattr on the object); resetMetadataCache hands the unwrapped object to the cache reset. "
     "Also decided (round 9): The metadata cache rules also recognise member sets obtained from the cache entry (`x = entry['methods']`). "
+    'Also decided (round 11): The member-list helpers are handed the registered object itself (never type(x): for a registered class that is the metaclass, and the reset misses the cache entry). '
     "Not decided: getattr/descriptor behaviour for arbitrary class shapes, unicode look-alikes, non-string names."
 )
 
